@@ -529,41 +529,22 @@ func ruleC18R3(r *Run) {
 		if len(fcs) != 1 {
 			r.Fail("genIntRange#sign-coin", gi.Pos(), "genIntRange does not flip exactly one sign coin")
 		} else {
-			ph, ok := p.resolve(fcs[0].Arg(1)).(*ssa.Phi)
 			okSplit := false
 			detail := p.expr(fcs[0].Arg(1))
-			if ok {
-				// flatten nested phis
-				var leaves []struct {
-					v     ssa.Value
-					facts []rel
-				}
-				var flat func(ph *ssa.Phi, d int)
-				flat = func(ph *ssa.Phi, d int) {
-					for i, e := range ph.Edges {
-						er := p.resolve(e)
-						if ph2, isP := er.(*ssa.Phi); isP && d < 4 {
-							flat(ph2, d+1)
-							continue
-						}
-						pred := ph.Block().Preds[i]
-						leaves = append(leaves, struct {
-							v     ssa.Value
-							facts []rel
-						}{er, p.facts(pred.Instrs[len(pred.Instrs)-1])})
-					}
-				}
-				flat(ph, 0)
+			// the values pNeg can take, with the facts under which it takes them (phi edges, returns of a helper)
+			leaves := p.alternatives(fcs[0].Arg(1), 0)
+			if len(leaves) > 1 {
 				okSplit = true
 				mixed := 0
 				for _, lf := range leaves {
-					c, isC := lf.v.(*ssa.Const)
+					facts := append(append([]rel{}, lf.Facts...), p.facts(fcs[0].Instr)...)
+					c, isC := p.resolve(lf.Val).(*ssa.Const)
 					switch {
-					case holds(lf.facts, "$min", ">=", "0"):
+					case holds(facts, "$min", ">=", "0"):
 						if !isC || p.expr(c) != "0" {
 							okSplit = false
 						}
-					case holds(lf.facts, "$max", "<=", "0"):
+					case holds(facts, "$max", "<=", "0"):
 						if !isC || p.expr(c) != "1" {
 							okSplit = false
 						}
@@ -643,7 +624,7 @@ func ruleC18R4(r *Run) {
 			}
 			for fi, fl := range []string{lOv, rOv} {
 				if holds(facts, fl, "==", "true") {
-					same := p.resolve(lo.Edges[i]) == p.resolve(hi.Edges[i])
+					same := p.same(lo.Edges[i], hi.Edges[i]) || (isLocalFieldLoad(p.resolve(lo.Edges[i])) && isLocalFieldLoad(p.resolve(hi.Edges[i])) && p.expr(lo.Edges[i]) == p.expr(hi.Edges[i]))
 					isPart := partOfBound(p, lo.Edges[i], []string{"$min", "$max"}[fi], 0)
 					if same && isPart {
 						okPins++
@@ -660,11 +641,25 @@ func ruleC18R4(r *Run) {
 
 // partOfBound: v is (a phi of) results of ufloat32Parts/ufloat64Parts applied to the given bound parameter.
 func partOfBound(p *Program, v ssa.Value, bound string, d int) bool {
-	if d > 4 {
+	if d > 6 {
 		return false
 	}
 	v = p.resolve(v)
 	switch x := v.(type) {
+	case *ssa.UnOp:
+		// a field of a local struct that holds the parts (lo.signifI)
+		if fa, ok := x.X.(*ssa.FieldAddr); ok && x.Op == token.MUL {
+			srcs, ok := p.fieldSources(fa, 0)
+			if !ok {
+				return false
+			}
+			for _, s := range srcs {
+				if !partOfBound(p, s, bound, d+1) {
+					return false
+				}
+			}
+			return true
+		}
 	case *ssa.Phi:
 		for _, e := range x.Edges {
 			if !partOfBound(p, e, bound, d+1) {
@@ -757,4 +752,19 @@ func (p *Program) evalWithPhis(v ssa.Value, f func(*ssa.Phi) (int64, bool), dept
 		}
 	}
 	return 0, false
+}
+
+
+// isLocalFieldLoad: v loads a field of a struct held in a local cell.
+func isLocalFieldLoad(v ssa.Value) bool {
+	u, ok := v.(*ssa.UnOp)
+	if !ok || u.Op != token.MUL {
+		return false
+	}
+	fa, ok := u.X.(*ssa.FieldAddr)
+	if !ok {
+		return false
+	}
+	_, isAlloc := fa.X.(*ssa.Alloc)
+	return isAlloc
 }
